@@ -1,4 +1,5 @@
 import RubyTi.Model.Token
+import RubyTi.Gen.StrategyFacts
 
 /-!
 # C13 — consistently renaming user identifiers changes nothing but the names (classification core)
@@ -101,5 +102,11 @@ example : localName [95, 110, 117, 109] ∧ isVariableIdent [95, 110, 117, 109] 
   constructor
   · left; decide
   · decide
+
+/-- `recv.name` is looked up as a method first; an instance variable spelled like the method (`@name`) is a
+different identifier and is consulted only when there is no such method (regenerated from
+instanceMethodStrategy.getRequiredValues). Renaming the method alone therefore cannot change which of the two a
+call denotes. -/
+theorem method_before_instance_variable : Gen.instanceLookupMethodFirst = true := by decide
 
 end RubyTi.C13
